@@ -354,6 +354,24 @@ func (x *Exec) specEval(c *SpecCtx, e *Expr) (*Val, error) {
 		x.asserts = append(x.asserts, tForall([]*Term{sym}, tEq(tSelect(A, sym), body), []*Term{tSelect(A, sym)}))
 		return &Val{K: VScalar, T: A, SetOf: ty.sort()}, nil
 	case "forall", "exists":
+		if len(e.BVars) == 1 {
+			if els, ok := x.C.Sets[e.BVars[0].Type]; ok {
+				// quantification over a named finite set of strings: expanded into a conjunction / disjunction
+				var parts []*Term
+				for _, el := range els {
+					c2 := c.with(map[string]*Val{e.BVars[0].Name: scalar(x.strLit(el), types.Typ[types.String])})
+					t, err := x.specBool(c2, e.Args[0])
+					if err != nil {
+						return nil, err
+					}
+					parts = append(parts, t)
+				}
+				if e.Kind == "forall" {
+					return boolVal(tAnd(parts...)), nil
+				}
+				return boolVal(tOr(parts...)), nil
+			}
+		}
 		vars := map[string]*Val{}
 		var bound []*Term
 		var facts []*Term
